@@ -48,6 +48,7 @@ func (c *Chain) CntCallIter(h util.Uint160, method string, args ...any) ([]stack
 	if err != nil {
 		return nil, err
 	}
+	c.CoverVM(ic.VM)
 	defer ic.Finalize()
 	ic.VM.LoadWithFlags(tx.Script, callflag.All)
 	if err := ic.VM.Run(); err != nil {
